@@ -284,6 +284,65 @@ MUTANTS = [
       "        d.addCallback(lambda child: self.delete(current_child_name))\n        result = d\n        return result\n", None),
     M("benign-move-shortcut-ret-hoist", F, "            return defer.succeed(\"redundant rename/relink\")\n",
       "            done = defer.succeed(\"redundant rename/relink\")\n            return done\n", None),
+    # ---- C20.8 the looked-up name is normalised in the modifier or by every caller
+    # (seeded C20-E) Deleter trusts its caller, but DirectoryNode.delete hands the raw namex on
+    M("deleter-trusts-caller-delete-raw", F,
+      "        self.name = normalize(namex)\n        self.must_exist = must_exist\n",
+      "        self.name = namex\n        self.must_exist = must_exist\n", "C20.8"),
+    # both modifiers trust the caller and set_metadata_for stops normalising
+    M("mdsetter-trusts-caller-raw", F,
+      "        self.name = normalize(namex)\n        self.metadata = metadata\n",
+      "        self.name = namex\n        self.metadata = metadata\n", "C20.8",
+      edits=[(F, "        s = MetadataSetter(self, name, metadata,", "        s = MetadataSetter(self, namex, metadata,")]),
+    # normalisation moved into delete(), but only on one branch
+    M("delete-normalises-conditionally", F,
+      "        self.name = normalize(namex)\n        self.must_exist = must_exist\n",
+      "        self.name = namex\n        self.must_exist = must_exist\n", "C20.8",
+      edits=[(F, "        deleter = Deleter(self, namex, must_exist=must_exist,",
+              "        if must_exist:\n            namex = normalize(namex)\n"
+              "        deleter = Deleter(self, namex, must_exist=must_exist,")]),
+    # Adder.modify compares the raw spelling (its entries come un-normalised from set_node / set_nodes)
+    M("adder-raw-name", F, "            name = normalize(namex)\n            precondition(IFilesystemNode.providedBy(child), child)",
+      "            name = namex\n            precondition(IFilesystemNode.providedBy(child), child)", "C20.8"),
+    # benign: the normalisation moves from Deleter.__init__ to its only caller
+    M("benign-deleter-normalised-by-caller", F,
+      "        self.name = normalize(namex)\n        self.must_exist = must_exist\n",
+      "        self.name = namex\n        self.must_exist = must_exist\n", None,
+      edits=[(F, "        deleter = Deleter(self, namex, must_exist=must_exist,",
+              "        deleter = Deleter(self, normalize(namex), must_exist=must_exist,")]),
+    M("benign-deleter-normalised-local-in-caller", F,
+      "        self.name = normalize(namex)\n        self.must_exist = must_exist\n",
+      "        self.name = namex\n        self.must_exist = must_exist\n", None,
+      edits=[(F, "        deleter = Deleter(self, namex, must_exist=must_exist,",
+              "        namex = normalize(namex)\n        deleter = Deleter(self, namex, must_exist=must_exist,")]),
+    # benign: MetadataSetter's only caller already normalises (the harmless half of C20-E)
+    M("benign-mdsetter-trusts-normalising-caller", F,
+      "        self.name = normalize(namex)\n        self.metadata = metadata\n",
+      "        self.name = namex\n        self.metadata = metadata\n", None),
+    M("benign-adder-normalise-hoisted", F,
+      "            name = normalize(namex)\n            precondition(IFilesystemNode.providedBy(child), child)",
+      "            nfc = normalize(namex)\n            name = nfc\n            precondition(IFilesystemNode.providedBy(child), child)", None),
+    # ---- C20.9 the read operations look the normalised name up
+    M("get-child-and-metadata-raw", F, "        d.addCallback(self._get_with_metadata, name)",
+      "        d.addCallback(self._get_with_metadata, namex)", "C20.9"),
+    M("has-child-raw", F, "        d.addCallback(lambda children: name in children)",
+      "        d.addCallback(lambda children: namex in children)", "C20.9"),
+    M("get-metadata-for-not-normalised", F,
+      "        name = normalize(namex)\n        d = self._read()\n        d.addCallback(lambda children: children[name][1])",
+      "        name = namex\n        d = self._read()\n        d.addCallback(lambda children: children[name][1])", "C20.9"),
+    M("get-normalises-only-non-ascii", F,
+      "        name = normalize(namex)\n        d = self._read()\n        d.addCallback(self._get, name)",
+      "        name = namex\n        if not namex.isascii():\n            name = namex.strip()\n"
+      "        d = self._read()\n        d.addCallback(self._get, name)", "C20.9"),
+    M("benign-has-child-inline-normalize", F, "        d.addCallback(lambda children: name in children)",
+      "        d.addCallback(lambda children: normalize(namex) in children)", None),
+    M("benign-get-nested-callback", F, "        d.addCallback(self._get, name)",
+      "        def _lookup(children):\n            return self._get(children, name)\n        d.addCallback(_lookup)", None),
+    M("benign-get-lambda-callback", F, "        d.addCallback(self._get, name)",
+      "        d.addCallback(lambda children: self._get(children, name))", None),
+    M("benign-get-helper-normalises", F, "        d.addCallback(self._get, name)", "        d.addCallback(self._get, namex)", None,
+      edits=[(F, "    def _get(self, children, name):\n        child = children.get(name)",
+              "    def _get(self, children, namex):\n        name = normalize(namex)\n        child = children.get(name)")]),
     # ---- vanished anchor
     M("vanish-move-child-to", F, "    def move_child_to(self, current_child_namex, new_parent,",
       "    def relink_child(self, current_child_namex, new_parent,", "ANALYSIS-ERROR"),
